@@ -54,6 +54,16 @@ import PycsepVerif.PyPrelude
                                 are treated as copied at that moment (py2lean_sm.py refuses a later in-place update of
                                 an escaped list before it is rebound)
     parameter updated in place  declared `inout` in TARGETS; its final value is part of the result
+    `for i, x in enumerate(self)` / `for x in self`   ONE pass over the object: the opaque parameter `iter_self` maps the state
+                                record to (the list of items the pass yields, the state record after it); the loop body
+                                runs over that list AFTER the pass, may read only the fields the pass keeps
+                                (TARGETS.iter_self.keeps) and assign none; an exception of the body therefore shows the
+                                forecast after a complete pass, not in the middle of it (state at an exception is not
+                                modelled anyway)
+    `obj.attr = v`, `obj.m(…)` on a local opaque object   opaque setter `<T>_set_<attr>` / (raising) method `<T>_<m>`
+    `numpy.empty(shape)`        uninitialised memory: the arbitrary value `empty'`, a parameter of the definition
+    `time.time()`               a clock reading: may be stored in a local, any use stops the translation
+    `x / opt`, `x * opt` …      `PySM.getOpt`: TypeError when the Optional operand is None
     `numpy.random.seed(s)`      both hidden streams are replaced by those of the freshly seeded generator, given by the
                                 opaque parameters `seed_rng : Int → List Rat`, `seed_pois : Int → List Nat`
     `numpy.random.poisson(m)`   the next element of the hidden stream `pois' : List Nat` (`PySM.rngPoisson`)
@@ -283,6 +293,12 @@ def column {ρ : Type} (fieldOf : String → Option (ρ → Rat)) (name : String
   | none => .error (.py .valueError)
 
 /-! ## Optional values -/
+
+/-- an Optional value used where a number is needed (`data / self.n_cat`): TypeError when it is None -/
+def getOpt {β : Type} : Option β → M β
+  | some v => .ok v
+  | none => .error .typeError
+
 
 /-- `x == y` where `x` may be `None` and `y` is an int: `None == 3` is False -/
 def optEqInt (x : Option Int) (y : Int) : Bool := x == some y
